@@ -387,7 +387,8 @@ def handle_g_refuted(run, fid, gr):
         run.add_violation(report.Violation(
             run.prop, gr['name'], {'obligation': short}, witness,
             'obligation %s was discharged on the reference tree and is now refuted by a finite-scope counterexample that '
-            'reproduces on the real code: %s; %s' % (gr['name'], rep.get('observed'), '; '.join(rep.get('violated', []))),
+            'reproduces on the real code: %s; %s %s' % (gr['name'], rep.get('observed'), '; '.join(rep.get('violated', [])),
+                                                         rep.get('note') or ''),
             True, g.get('solver_output')))
     else:
         run.add_violation(report.Violation(
